@@ -142,7 +142,7 @@ class C06(Prop):
     theorems = ["EaselModel.Props.C06." + t for t in (
         "codec_roundtrip", "codec_bigendian", "bsearch_correct", "write_spec", "write_ok_iff_distinct", "write_dup_no_file",
         "written_file", "open_written", "findName_stored", "findName_alias_partial", "findName_absent", "findNumber_sorted",
-        "fileInfo_spec", "internal_eq_external", "history_write", "history_index_correct", "history_alias_partial", "findSubseq_spec", "exCross_wf",
+        "fileInfo_spec", "internal_eq_external", "history_write", "history_index_correct", "history_alias_partial", "findSubseq_spec", "findSubseq_erange", "exCross_wf",
         "cross_class_duplicate_accepted")]
     claimed = True
     technique = ("Lean 4 proof about an executable model of esl_ssi.c (writer, on-disk layout, binary search, alias indirection) "
@@ -170,7 +170,7 @@ class C06(Prop):
                    "esl_fread_u16/u32/u64/i64/offset; from easel.c esl_FileTail, esl_strtok, esl_fgets (as 'read a line'), esl_strdup",
                    "not covered: esl_newssi_Open's overwrite protection, eslEMEM/eslEWRITE/eslESYS paths, indices large enough (>= 2 GB) to switch to the external sort by themselves "
                    "(the switch is forced through max_ram), 32-bit off_t hosts, corrupt index files beyond esl_ssi_Open's header and file-record parse",
-                   "esl_ssi_FindSubseq is modelled with the repaired range test (requested_start < 1 rejected, DESIGN section 7 item 11); start = 0 is not generated"]
+                   "esl_ssi_FindSubseq is modelled with the repaired range test (requested_start < 1 rejected, DESIGN section 7 item 11); start <= 0 is generated and must give eslERANGE"]
     rule = ("cases = index build histories (files, keys, aliases, optional switch to external sort at a chosen point) + write + reopen + lookups "
             "of stored keys, aliases, near-miss probes, numbers, file handles; non-trivial = a written index with >= 1 successful lookup; distinct by output trace")
     quick_budget_s = 90
@@ -263,12 +263,12 @@ class C06(Prop):
             if mode == "dupP" and keys:
                 d = pick(keys)
                 where = rng.choice([0, len(keys), rng.randrange(len(keys) + 1)])
-                keys.insert(where, (d[0], rng.randrange(nfiles), off(rng), off(rng), off(rng)))
+                keys.insert(where, d if rng.random() < 0.3 else (d[0], rng.randrange(nfiles), off(rng), off(rng), off(rng)))   # 30%: the identical record twice
                 if rng.random() < 0.2:      # a triple
                     keys.insert(rng.randrange(len(keys) + 1), (d[0], rng.randrange(nfiles), off(rng), off(rng), off(rng)))
             elif aliases:
                 d = pick(aliases)
-                aliases.insert(rng.choice([0, len(aliases), rng.randrange(len(aliases) + 1)]), (d[0], rng.choice(keys)[0]))
+                aliases.insert(rng.choice([0, len(aliases), rng.randrange(len(aliases) + 1)]), d if rng.random() < 0.3 else (d[0], rng.choice(keys)[0]))
             else:
                 mode = "int"
         n_adds = len(keys) + len(aliases)
@@ -286,22 +286,28 @@ class C06(Prop):
         else:
             ops += self._build_ops(files, merged, None, subseq)
         ops.append("open")
+        look = []
         for p in self._probes(rng, keys, aliases, probe_limit):
-            ops.append("find k=%s" % hx(p))
+            look.append("find k=%s" % hx(p))
         n = len(keys)
         nums = list(range(n)) if n <= 40 else sorted(set(rng.sample(range(n), 30) + [0, 1, n - 2, n - 1]))
         nums += [n, n + 1, -1, 2**63 - 1, -2**63]
         for i in nums:
-            ops.append("findnum i=%d" % i)
+            look.append("findnum i=%d" % i)
         for fh in list(range(nfiles)) + [nfiles, 32767, 65535]:
-            ops.append("fileinfo fh=%d" % fh)
+            look.append("fileinfo fh=%d" % fh)
         for k in (rng.sample(keys, min(len(keys), 6)) if keys else []):
             L = k[4]
-            for s in {1, max(1, L), L + 1, max(1, L // 2), rng.randrange(1, max(2, min(L + 1, 2**63 - 1)))}:
-                if 1 <= s <= 2**63 - 1:
-                    ops.append("subseq k=%s start=%d" % (hx(k[0]), s))
+            for s in {1, max(1, L), L + 1, max(1, L // 2), rng.randrange(1, max(2, min(L + 1, 2**63 - 1))), 0, -1, rng.choice([-2**63, -2, 2**63 - 1])}:
+                if -2**63 <= s <= 2**63 - 1:
+                    look.append("subseq k=%s start=%d" % (hx(k[0]), s))
         for a in (rng.sample(aliases, min(len(aliases), 2)) if aliases else []):
-            ops.append("subseq k=%s start=1" % hx(a[0]))
+            look.append("subseq k=%s start=1" % hx(a[0]))
+        if rng.random() < 0.7:
+            rng.shuffle(look)         # lookups of different kinds interleave: no call may rely on the file position left by another
+        ops += look
+        if rng.random() < 0.1:        # reopen and look again
+            ops += ["close", "open"] + rng.sample(look, min(len(look), 10))
         ops.append("close")
         return {"name": name, "ops": ops, "sticky": 1}
 
@@ -377,7 +383,7 @@ class C06(Prop):
             "addkey k=%s fh=0 r=10 d=20 L=130" % hx(b"good"), "external", "addkey k=%s fh=40000 r=1 d=2 L=3" % hx(b"bad3"),
             "addkey k=%s fh=0 r=11 d=0 L=5" % hx(b"good2"), "addalias a=%s k=%s" % (hx(b"al"), hx(b"good")), "write", "open",
             "find k=%s" % hx(b"bad"), "find k=%s" % hx(b"bad2"), "find k=%s" % hx(b"bad3"), "find k=%s" % hx(b"good"), "find k=%s" % hx(b"good2"), "find k=%s" % hx(b"al"),
-            "subseq k=%s start=1" % hx(b"good"), "subseq k=%s start=60" % hx(b"good"), "subseq k=%s start=61" % hx(b"good"), "subseq k=%s start=130" % hx(b"good"),
+            "subseq k=%s start=0" % hx(b"good"), "subseq k=%s start=-1" % hx(b"good"), "subseq k=%s start=1" % hx(b"good"), "subseq k=%s start=60" % hx(b"good"), "subseq k=%s start=61" % hx(b"good"), "subseq k=%s start=130" % hx(b"good"),
             "subseq k=%s start=131" % hx(b"good"), "subseq k=%s start=3" % hx(b"good2"), "subseq k=%s start=121" % hx(b"al"), "subseq k=%s start=1" % hx(b"nope"),
             "findnum i=0", "findnum i=1", "findnum i=2", "fileinfo fh=0", "close"]})
         # the known cross-class duplicate (DESIGN §7 item 14): Write does not notice alias == primary key
@@ -395,6 +401,8 @@ class C06(Prop):
         for c in range(n):
             r = rng.random()
             nfiles = rng.choice([1, 1, 2, 3, 15, 16, 17, 40, rng.randint(1, 40)])
+            if rng.random() < 0.01:
+                nfiles = rng.choice([255, 256, 257, 300])     # beyond the property's 40 files: exercises both bytes of the 16-bit fields
             if r < 0.08:
                 nkeys = rng.choice([0, 1, 2])
             elif r < 0.75:
